@@ -75,6 +75,9 @@ func (this *minerRefundExecutor) Execute(transaction *types.Transaction, header 
 	refundInfo, ok := refundInfos[refundHeight]
 	if ok {
 		refundInfo.AddRefundInfo(addr, money)
+		// refundInfo is a copy of the map's value: a refund for an account not yet in the
+		// list grows the copy's slice only, so store it back
+		refundInfos[refundHeight] = refundInfo
 	} else {
 		refundInfo = types.RefundInfoList{}
 		refundInfo.AddRefundInfo(addr, money)
